@@ -9,11 +9,16 @@ pub mod c03;
 pub mod c04;
 pub mod c05;
 pub mod c06;
+pub mod c07;
+pub mod c08;
+pub mod c09;
 pub mod c10;
+pub mod c11;
 pub mod c12;
 pub mod c13;
 pub mod c14;
 pub mod c15;
+pub mod c20;
 pub mod util;
 pub mod c16;
 pub mod c17;
@@ -26,6 +31,7 @@ pub fn parts(prop: &str) -> Vec<Box<dyn Part>> {
         "C04" => c04::parts(),
         "C05" => c05::parts(),
         "C06" => c06::parts(),
+        "C08" => c08::parts(),
         "C10" => c10::parts(),
         "C12" => c12::parts(),
         "C13" => c13::parts(),
@@ -34,11 +40,12 @@ pub fn parts(prop: &str) -> Vec<Box<dyn Part>> {
         "C16" => c16::parts(),
         "C17" => c17::parts(),
         "C19" => c19::parts(),
+        "C20" => c20::parts(),
         _ => vec![],
     }
 }
 
-pub const ALL: [&str; 15] = ["C01", "C02", "C03", "C04", "C05", "C06", "C10", "C12", "C13", "C14", "C15", "C16", "C17", "C18", "C19"];
+pub const ALL: [&str; 20] = ["C01", "C02", "C03", "C04", "C05", "C06", "C07", "C08", "C09", "C10", "C11", "C12", "C13", "C14", "C15", "C16", "C17", "C18", "C19", "C20"];
 
 pub fn assumptions(prop: &str) -> Vec<String> {
     let mut v = vec![
@@ -58,6 +65,11 @@ pub fn e2_parts(prop: &str) -> Vec<Box<dyn crate::e2::E2Part>> {
         "C01" => c01::e2_parts(),
         "C02" => c02::e2_parts(),
         "C03" => c03::e2_parts(),
+        "C07" => c07::e2_parts(),
+        "C08" => c08::e2_parts(),
+        "C09" => c09::e2_parts(),
+        "C11" => c11::e2_parts(),
+        "C20" => c20::e2_parts(),
         _ => vec![],
     }
 }
